@@ -39,6 +39,16 @@ func (lc *lowerCtx) calleeInfo(ex ast.Expr, fd *ast.FuncDecl, lit *ast.FuncLit, 
 		return true
 	})
 	if fn == nil {
+		// a value of function type (field, variable): matched by the identity of the function value
+		if sig, ok := info.Types[ex].Type.Underlying().(*types.Signature); ok {
+			if idx < 0 {
+				return "<dynamic>", "bool", nil
+			}
+			if idx >= sig.Results().Len() {
+				return "", "", fmt.Errorf("result index %d out of range", idx)
+			}
+			return "<dynamic>", types.TypeString(sig.Results().At(idx).Type(), lc.g.qualifier), nil
+		}
 		return "", "", fmt.Errorf("not a function")
 	}
 	sig := fn.Type().(*types.Signature)
@@ -57,6 +67,15 @@ func (lc *lowerCtx) calleeInfo(ex ast.Expr, fd *ast.FuncDecl, lit *ast.FuncLit, 
 func (e *Engine) callRefValue(ref callRef, st *State, t types.Type) Val {
 	var evs []Event
 	for _, ev := range e.events {
+		if ref.dynT != "" {
+			if ev.Callee == "<dynamic>" && ev.RecvT != "" {
+				ev.Guard = and(ev.Guard, eq(ref.dynT, ev.RecvT))
+				if ev.Guard != "false" {
+					evs = append(evs, ev)
+				}
+			}
+			continue
+		}
 		if ev.Static != nil && (ev.Static.String() == ref.callee || staticFullName(ev.Static) == ref.callee) {
 			evs = append(evs, ev)
 		}
